@@ -64,6 +64,15 @@ Theorem c04_hit_only_same_question h q v :
 Proof. exact (hit_only_same_question h q v). Qed.
 Print Assumptions c04_hit_only_same_question.
 
+(** What the store holds under a key always answers a query with that key (a
+    background update of the lazy cache is the step [Query q r r] for the query
+    it was started for; [Judge.C04.lazy_run] runs it that way). *)
+Theorem c04_held_entry_answers_its_key h k v :
+  lookup k (final h) = Some v ->
+  exists q om oh, In (Query q om oh) h /\ msg_key q = Some k /\ answers_question v q = true.
+Proof. exact (held_entry_answers_its_key h k v). Qed.
+Print Assumptions c04_held_entry_answers_its_key.
+
 (** The same, for the outcome recorded at any position of any run (this is the
     list [Judge.C04.agree] compares with the observed one). *)
 Theorem c04_run_hits_only_same_question h1 q om oh h2 v :
